@@ -368,6 +368,158 @@ def c07(tier, seed):
                   nontrivial, cov,
                   SEQ_ASSUME + ["NDEBUG builds only (debug builds assert after a failed decommit by design)", "a plan whose fault never fired counts as not covered"])
 
+# ---- multi-thread driver ------------------------------------------------------------------------------------------------
+MT_SCEN_ARGS = {
+    # scenario: (baton arg generator, parallel arg generator)
+    "xfree":    (lambda r: ["--threads", r.choice([2, 3, 3, 4]), "--ops", r.choice([40, 80, 150, 300])],              lambda r: ["--threads", r.choice([4, 8, 12]), "--ops", r.choice([20000, 60000])]),
+    "prodcons": (lambda r: ["--threads", r.choice([2, 3, 4]), "--rounds", r.choice([20, 40, 80]), "--live", r.choice([8, 32, 64])],
+                 lambda r: ["--threads", r.choice([3, 5, 8]), "--rounds", r.choice([400, 1200]), "--live", r.choice([64, 1024, 4096])]),
+    "heapdel":  (lambda r: ["--threads", r.choice([2, 3, 4]), "--rounds", r.choice([8, 16, 40])],                      lambda r: ["--threads", r.choice([3, 5, 8]), "--rounds", r.choice([400, 1500])]),
+    "exit":     (lambda r: ["--threads", r.choice([2, 3, 4]), "--ops", r.choice([40, 100, 200]), "--rounds", r.choice([2, 3, 5]), "--exit-mode", r.choice([0, 1, 2])],
+                 lambda r: ["--threads", r.choice([4, 6, 8]), "--ops", r.choice([3000, 8000]), "--rounds", r.choice([4, 8]), "--exit-mode", r.choice([0, 2])]),
+    "arena":    (lambda r: ["--threads", r.choice([2, 3, 4]), "--ops", r.choice([30, 60, 120]), "--arena-blocks", r.choice([96, 100, 128, 130, 160])],
+                 lambda r: ["--threads", r.choice([4, 6, 8]), "--ops", r.choice([400, 1500]), "--arena-blocks", r.choice([96, 100, 130, 160])]),
+}
+MT_ENVS = {
+    "xfree": [{}],
+    "prodcons": [{}],
+    "heapdel": [{}],
+    "exit": [{"MIMALLOC_VISIT_ABANDONED": "1"}, {"MIMALLOC_VISIT_ABANDONED": "1", "MIMALLOC_ABANDONED_RECLAIM_ON_FREE": "1"}, {"MIMALLOC_VISIT_ABANDONED": "1", "MIMALLOC_DISALLOW_ARENA_ALLOC": "1"},
+             {"MIMALLOC_VISIT_ABANDONED": "1", "MIMALLOC_TARGET_SEGMENTS_PER_THREAD": "2"}, {"MIMALLOC_VISIT_ABANDONED": "1", "MIMALLOC_MAX_SEGMENT_RECLAIM": "100", "MIMALLOC_ABANDONED_PAGE_PURGE": "1"}],
+    "arena": [{}, {"MIMALLOC_PURGE_DELAY": "0"}, {"MIMALLOC_PURGE_DELAY": "1", "MIMALLOC_ARENA_PURGE_MULT": "1"}],
+}
+
+def mt_cases(prop, scenario, tier, seed, n_baton=None, n_par=None, n_tsan=None, start=0):
+    n_baton = n_baton if n_baton is not None else tier_n(tier, 1200, 60000)
+    n_par = n_par if n_par is not None else tier_n(tier, 12, 120)
+    n_tsan = n_tsan if n_tsan is not None else tier_n(tier, 6, 60)
+    variants = ["rel-h", "dbg-h"] + (["tsan-h"] if n_tsan else [])
+    build.build_many([("drv_mt", v) for v in variants])
+    rnd = random.Random(seed * 104729 + hash(scenario) % 1000 + start)
+    gen_b, gen_p = MT_SCEN_ARGS[scenario]
+    envs = MT_ENVS[scenario]
+    cases = []
+    def mk(v, mode, extra, i, timeout):
+        s = case_seed(seed, prop + scenario, start + i)
+        env = dict(rnd.choice(envs)); env.update(san_env(v, prop, ""))
+        exe = build.driver("drv_mt", v)
+        args = [exe, "--scenario", scenario, "--prop", prop, "--variant", v, "--seed", s, "--mode", mode, "--debug", int(v.startswith("dbg"))] + [str(x) for x in extra]
+        return Case("%s-%s-%s-%s-%d" % (prop, scenario, v, mode, s), args, env=env, timeout=timeout, crash_refutes=[prop], meta={"variant": v, "scenario": scenario, "mode": mode, "seed": s,
+                    "config": envname({k: x for k, x in env.items() if k.startswith("MIMALLOC_")})})
+    for i in range(n_baton):
+        v = "rel-h" if i % 2 == 0 else "dbg-h"
+        pol = rnd.choice(["targeted", "targeted", "uniform", "pct"])
+        extra = gen_b(rnd) + ["--policy", pol, "--spurious", rnd.choice([0, 4, 8, 16])]
+        if pol == "targeted": extra += ["--p-hot", rnd.choice([2, 2, 3]), "--p-other", rnd.choice([8, 16, 32])]
+        elif pol == "uniform": extra += ["--p-other", rnd.choice([2, 4, 8, 32])]
+        else: extra += ["--pct-depth", rnd.choice([1, 2, 3]), "--pct-steps", rnd.choice([3000, 20000, 100000])]
+        cases.append(mk(v, "baton", extra, i, 120))
+    for i in range(n_par):
+        v = "rel-h" if i % 2 == 0 else "dbg-h"
+        mode = rnd.choice(["delay", "delay", "off"])
+        cases.append(mk(v, mode, gen_p(rnd) + ["--delay-den", rnd.choice([16, 64, 256]), "--spurious", rnd.choice([0, 8])], 100000 + i, 600))
+    for i in range(n_tsan):
+        mode = rnd.choice(["delay", "off"])
+        ex = gen_p(rnd)
+        # TSan costs 5-15x: shrink the op counts
+        ex = [(max(2, int(x) // 8) if isinstance(x, int) and x >= 400 else x) for x in ex]
+        cases.append(mk("tsan-h", mode, ex + ["--delay-den", rnd.choice([32, 128]), "--spurious", 0], 200000 + i, 900))
+    return cases
+
+def mt_cov(cases):
+    hashes = set((c.result or {}).get("sched", {}).get("hash") for c in cases if c.result and c.meta.get("mode") == "baton")
+    funcs = {}
+    for c in cases:
+        for k, v in ((c.result or {}).get("funcs") or {}).items():
+            cur = funcs.setdefault(k, [0, 0]); cur[0] += v[0]; cur[1] += v[1]
+    top = dict(sorted(funcs.items(), key=lambda kv: -kv[1][1])[:16])
+    def sm(*p): return core.sum_field(cases, *p)
+    return {
+        "executions": len(cases), "by_mode": {m: sum(1 for c in cases if c.meta.get("mode") == m) for m in ("baton", "delay", "off")},
+        "by_variant": {v: sum(1 for c in cases if c.meta.get("variant") == v) for v in sorted(set(c.meta.get("variant") for c in cases))},
+        "distinct_baton_schedules": len(hashes),
+        "schedule_points": sm("sched", "points"), "context_switches": sm("sched", "switches"), "forced_switches_at_yield_points": sm("sched", "forced"), "spurious_weak_cas_failures": sm("sched", "spurious_cas"),
+        "injected_delays": sm("sched", "delays"),
+        "points_and_switches_per_function": top,
+        "allocations": sm("mt", "allocs"), "local_frees": sm("mt", "local_frees"), "remote_frees": sm("mt", "remote_frees"), "handovers": sm("mt", "sends"), "pattern_verifications": sm("mt", "verified"),
+        "events_replayed_by_lifetime_checker": sm("mt", "events"), "collects": sm("mt", "collects"), "thread_exits": sm("mt", "thread_exits"), "heap_deletes_racing_frees": sm("mt", "heap_deletes"),
+        "arena_claims": sm("mt", "claims"), "arena_claims_failed_for_space": sm("mt", "claims_failed"),
+        "allocator_counters": core.merge_counts(cases, "mi"),
+        "option_settings": sorted(set(c.meta.get("config", "") for c in cases)),
+    }
+
+MT_ASSUME = ["baton mode explores sequentially consistent interleavings at the allocator's atomic operations (incl. spurious weak-CAS failure); weaker hardware orderings are visible only as ThreadSanitizer reports",
+             "the schedule controller only decides who runs when: every schedule is an execution the program can have", "only the executions listed were explored"]
+
+def mt_sample(c):
+    r = c.result or {}
+    return {"cmd": " ".join([os.path.basename(c.cmd[0])] + c.cmd[1:]), "env": {k: v for k, v in c.env.items() if k.startswith("MIMALLOC_")}, "schedule_hash": r.get("sched", {}).get("hash"),
+            "switches": r.get("sched", {}).get("switches"), "remote_frees": r.get("mt", {}).get("remote_frees")}
+
+def mt_finish(prop, tier, seed, cases, verdict, t0, rule, nontrivial, extra=None):
+    cov = mt_cov(cases)
+    if extra: cov.update(extra)
+    rc = finish(prop, tier, seed, "exploration", verdict, cases, t0, rule, nontrivial, cov, MT_ASSUME)
+    return rc
+
+def _mt_nontrivial(r, c):
+    m = r.get("mt", {}); s = r.get("sched", {})
+    return m.get("allocs", 0) >= 10 and (s.get("switches", 0) >= 10 or c.meta.get("mode") != "baton")
+
+@check("C02")
+def c02(tier, seed):
+    t0 = time.time(); prop = "C02"
+    cases = mt_cases(prop, "xfree", tier, seed)
+    v = Verdict(prop)
+    for c in core.run_cases(cases): v.add(c)
+    return mt_finish(prop, tier, seed, cases, v, t0,
+                     "a case = one execution of 2-4 (baton) or 4-12 (parallel) real threads that allocate from few size classes, free their own blocks, hand blocks to each other (lock-free mailboxes), "
+                     "verify and free received blocks and collect; baton mode: one thread runs at a time and every mi_atomic operation / yield / lock is a switch point of a seeded targeted, uniform or "
+                     "PCT scheduler with spurious weak-CAS failures; parallel mode: injected yields/spins/sleeps; TSan build; oracles: unique-id byte patterns checked by the current holder, offline "
+                     "replay of all alloc/free events in timestamp order against an interval map (no two live blocks intersect), crash handler, MI_DEBUG=3 invariants; non-trivial = >=10 allocations "
+                     "and >=10 context switches; distinct = schedule hash (sequence of (thread, function) at switches)", lambda r, c: _mt_nontrivial(r, c) and r.get("mt", {}).get("remote_frees", 0) >= 1)
+
+@check("C08")
+def c08(tier, seed):
+    t0 = time.time(); prop = "C08"
+    cases = mt_cases(prop, "prodcons", tier, seed)
+    v = Verdict(prop)
+    for c in core.run_cases(cases): v.add(c)
+    series = [(c.result or {}).get("areas_series") for c in cases if (c.result or {}).get("areas_series")][-3:]
+    return mt_finish(prop, tier, seed, cases, v, t0,
+                     "a case = one owner thread allocating from its own heap in rounds (<= L outstanding blocks) and 1-7 consumer threads freeing those blocks remotely while the owner keeps allocating, "
+                     "freeing and collecting; at the end every block has been freed by whichever thread, the owner calls mi_heap_collect(heap,true) once and the heap walk must report no area; the per-round "
+                     "area counts must not keep growing (max of 2nd half > 2x max of 1st quarter + 16 AND positive slope = violation); same schedulers as C02; non-trivial = >=10 remote frees; distinct = schedule hash",
+                     lambda r, c: r.get("mt", {}).get("remote_frees", 0) >= 10, {"area_series_samples": series})
+
+@check("C09")
+def c09(tier, seed):
+    t0 = time.time(); prop = "C09"
+    cases = mt_cases(prop, "exit", tier, seed)
+    v = Verdict(prop)
+    for c in core.run_cases(cases): v.add(c)
+    return mt_finish(prop, tier, seed, cases, v, t0,
+                     "a case = T slots, each running several generations of threads that allocate, exchange blocks, then terminate (pthread exit with the destructor running concurrently, or mi_thread_done "
+                     "under the scheduler) while their blocks are still held, read and freed by others and successors adopt what was abandoned; options: reclaim-on-free, forced abandonment, arena vs OS "
+                     "segments, reclaim percentage; at the end everything is freed, the survivors force-collect and mi_abandoned_visit_blocks must report nothing / no OS segment may stay mapped; "
+                     "non-trivial = >=2 thread exits with >=1 block handed over; distinct = schedule hash",
+                     lambda r, c: r.get("mt", {}).get("thread_exits", 0) >= 2 and r.get("mt", {}).get("sends", 0) >= 1)
+
+@check("C14")
+def c14(tier, seed):
+    t0 = time.time(); prop = "C14"
+    cases = mt_cases(prop, "arena", tier, seed, n_baton=tier_n(tier, 600, 30000))
+    v = Verdict(prop)
+    for c in core.run_cases(cases): v.add(c)
+    by_len = [0] * 7
+    for c in cases:
+        for i, x in enumerate((c.result or {}).get("claims_by_blocks", [])[:7]): by_len[i] += x
+    return mt_finish(prop, tier, seed, cases, v, t0,
+                     "a case = 2-8 threads with heaps bound to one exclusive arena (96-160 blocks of 32 MiB over PROT_NONE address space given to mi_manage_os_memory_ex) claiming and freeing regions of "
+                     "1-7 blocks (claims straddle the 64-bit bitmap fields, fail when full, roll back) while collects and purges run; stamps in every block, offline lifetime replay, range check against the "
+                     "arena; afterwards a request for the whole arena and then exactly block_count single-block segments must be allocatable; non-trivial = >=10 claims; distinct = schedule hash",
+                     lambda r, c: r.get("mt", {}).get("claims", 0) >= 10, {"claims_by_number_of_blocks_1_to_7": by_len})
+
 # ---- C13: pairwise covering array over the commit / purge / arena options --------------------------------------------
 OPTION_DOMAINS = [
     ("MIMALLOC_PURGE_DELAY", ["-1", "0", "1", "10"]),
